@@ -54,7 +54,7 @@ TEXT = {
 
 
 def theorem_count(pid):
-    n = 0
+    n = 0 if pid == "Tie" else theorem_count("Tie")
     for path in glob.glob(os.path.join(VERIF, "lean", "GseVerif", "Props", pid + "*.lean")):
         src = re.sub(r"/-.*?-/", "", open(path).read(), flags=re.S)
         n += len(re.findall(r"^\s*theorem\s+" + pid + r"_\w+", src, flags=re.M))
